@@ -64,4 +64,17 @@ CHECKS["C20"] = dict(
     note="Events of calls ending in stack overflow are not compared; chains are not compared for calls into an instance that was closed earlier; tail calls are not in the model.",
 )
 
+CHECKS["C16"] = dict(
+    technique="TLA+ POSIX-style reference model of names, inodes, descriptors and offsets (WasiFS.tla) checked by TLC; enumerated and simulated call histories replayed through a proxy guest on a real mounted directory (errno in allowed set, outputs, host tree, descriptor table and offsets compared after each call); fd_readdir traces validated by TLC against DirRead.tla",
+    text="WasiFS.tla models path_open with every oflag/fdflag/rights combination of interest, fd_close, fd_renumber (onto itself a no-op, over an open descriptor, onto a free one), fd_read/write/pread/pwrite, fd_seek/tell, size and truncation, timestamps, append flag changes, unlink/rename/mkdir/rmdir with open-then-unlinked files kept alive through inodes, lowest-free descriptor allocation; TLC checks its invariants, enumerates all pairs of calls, all triples over a core alphabet and seeded walks of 8-14 calls; each history is replayed on both engines through the real WASI implementation over a temp directory and after every call errno (against the model's allowed set), outputs, the host tree with contents, fd_fdstat_get of every descriptor and fd_tell are compared. For fd_readdir the driver records calls over directory sizes 0-6 x 12 buffer lengths x three mount kinds with rewinds and re-reads from earlier cookies; TLC decides whether every call returns exactly the slice of the directory order the reference semantics prescribes (exactly-once, truncated-not-skipped).",
+    design_ref="§4 C16, Appendix B",
+    note="Errno latitude is explicit (sets); steps POSIX leaves unspecified end a history; flat tree with three names; Linux host; directory order taken from a first complete pass.",
+)
+CHECKS["C17"] = dict(
+    technique="WasiFS.tla with ReadOnly = TRUE model-checked (TreeFrozen); the writable model's enumerated and simulated histories (every mutating call attempted) replayed on read-only mounts with a byte/mtime-exact host snapshot compared after every call",
+    text="TLC checks that the read-only variant of WasiFS.tla never changes its tree. The histories of the WRITABLE model - all pairs of calls, triples over a core alphabet, seeded longer walks, including path_open with every oflag/fdflag/rights combination, writes, truncation, timestamp changes through descriptors (also directories opened with O_DIRECTORY) and paths, append-flag changes, unlink/rename/mkdir/rmdir - are replayed through the proxy guest against WithReadOnlyDirMount and WithFSMount(os.DirFS) mounts on both engines; after every call the host directory (names, types, sizes, SHA-256, mtimes) must equal its initial snapshot, and afterwards open+read of a file must still return the original data.",
+    design_ref="§4 C17",
+    note="Whether a mutating call fails or succeeds without effect is not prescribed and not compared; fstest.MapFS mounts are not covered (nothing on the host to change).",
+)
+
 NOT_YET = "check not built yet in this round (work in progress; see DESIGN.md §4)"
